@@ -225,7 +225,7 @@ def make_slice(u, udir):
         if len(b) != 1:
             raise Undecided("slice no longer attaches: last anchor %r not found after the first" % (s["last"],))
         body = src_lines[a[0]:b[0] + 1]
-        txt = "\n".join(body)
+        txt = "\n".join(s.get("prologue", []) + body + s.get("epilogue", []))
         stripped = re.sub(r'"(\\.|[^"\\])*"', '""', re.sub(r"//.*", "", txt))
         if stripped.count("{") != stripped.count("}"):
             raise Undecided("slice %s: range is not brace balanced" % s["name"])
